@@ -118,6 +118,7 @@ type Scenario struct {
 	Dirs    []string                `json:"dirs,omitempty"`
 	Scripts map[string]*TokenScript `json:"scripts"`
 	Clients []Client                `json:"clients,omitempty"`
+	WS      []WSFollower            `json:"ws,omitempty"` // websocket log followers (need rest=true)
 	// options
 	OrderedShutdown bool     `json:"ordered_shutdown,omitempty"`
 	ViaCmd          bool     `json:"via_cmd,omitempty"` // run through the binary's headless entry point (installs its signal handler)
